@@ -134,6 +134,8 @@ def doctest_lines(fn):
             expected.append('# ' + ln.strip())
         else:
             in_want = False
+    last_src = [ln for ln, lab in zip(doc, labels) if lab == 'src'][-1]
+    ex_ind = last_src[:len(last_src) - len(last_src.lstrip())]     # the added lines continue the last chunk
     for kind in fn.get('post', []):
         if kind == 'skip_block':
             out_doc += [ex_ind + '>>> # xdoctest: +SKIP', ex_ind + ">>> print('skipped')", ex_ind + 'skipped']
